@@ -9,6 +9,9 @@ Local Open Scope char_scope.
 
 Definition bytes := list ascii.
 
+(* linear-time list reversal (List.rev is quadratic); rev_append_rev relates the two *)
+Definition frev {A} (l : list A) : list A := rev_append l [].
+
 Definition bs : ascii := "\".
 Definition dq : ascii := """".
 Definition sq : ascii := "'".
